@@ -8,6 +8,7 @@ package main
 // taken by the scenario and logged as a directive of coq/Model/Sys.v together with what was observed.
 
 import (
+	cronlib "github.com/robfig/cron/v3"
 	"fmt"
 	"os"
 	"path/filepath"
@@ -23,7 +24,6 @@ import (
 	"github.com/resonatehq/resonate/internal/kernel/t_aio"
 	"github.com/resonatehq/resonate/internal/kernel/t_api"
 	"github.com/resonatehq/resonate/internal/metrics"
-	"github.com/resonatehq/resonate/internal/util"
 )
 
 // ---------- PRNG (splitmix64): every random choice of a run derives from one state ----------
@@ -253,7 +253,7 @@ func (rn *runner) noteCron(cron string, t int64) {
 		return
 	}
 	rn.crons[key] = true
-	nx, err := util.Next(t, cron)
+	nx, err := cronOracle(t, cron)
 	var v term
 	if err == nil {
 		v = Some(nx)
@@ -271,7 +271,7 @@ func (rn *runner) noteCronLazy(cron string, t int64) {
 		return
 	}
 	rn.crons[key] = true
-	nx, err := util.Next(t, cron)
+	nx, err := cronOracle(t, cron)
 	var v term
 	if err == nil {
 		v = Some(nx)
@@ -655,4 +655,20 @@ func (rn *runner) crash() {
 	_ = old.store.Stop()
 	rn.afterCrash = true
 	rn.stat("crash")
+}
+
+// cronOracle is the cron library itself (robfig/cron v3, seconds optional, descriptors allowed: the documented format),
+// asked for the first occurrence strictly after the instant t (milliseconds, exact).  It does not go through the
+// server's own helpers (internal/util), which are code under test.
+func cronOracle(t int64, spec string) (nx int64, err error) {
+	defer func() {
+		if e := recover(); e != nil {
+			err = fmt.Errorf("cron library panicked: %v", e)
+		}
+	}()
+	sched, err := cronlib.NewParser(cronlib.SecondOptional | cronlib.Minute | cronlib.Hour | cronlib.Dom | cronlib.Month | cronlib.Dow | cronlib.Descriptor).Parse(spec)
+	if err != nil {
+		return 0, err
+	}
+	return sched.Next(time.UnixMilli(t)).UnixMilli(), nil
 }
